@@ -7,7 +7,7 @@ TARGETS = UNIFY_FAMILY
 
 
 def run(rep):
-    fw.deductive(rep, TARGETS, ['engine_terms'], ['terms.smt2'])
+    fw.deductive(rep, TARGETS, ['engine_terms'], ['terms.smt2'], timeout=25 if rep.tier == 'quick' else 60)
     # the two iterator classes implement the semidet handle protocol (one answer False / no answer, store untouched)
     from . import enginep
     enginep.engine_deductive(rep, enginep.ITER_CLASSES, heap_lemmas=False)
